@@ -18,11 +18,18 @@ import os
 
 def emit(X, repo, out):
     T = _Tr(X, repo)
-    T.flags()
+    T.flags()                 # WS_* constants, formatter constructors
+    text_err = None
+    try:
+        T.flags_text()        # the WS_TEXT branch of XMLFormatter._make_diff_tags: a sub-target of its own (only Flags.v
+    except X.Untranslatable as ex:   # mentions it), so that a change there does not break the tie of main.py
+        text_err = ex
     T.main()
-    X.write_if_changed(os.path.join(out, "Flags.v"), T.flags_v())
     X.write_if_changed(os.path.join(out, "CliPlumbing.v"), T.cli_v())
     X.write_if_changed(os.path.join(out, "EntryPoints.v"), T.entry_v())
+    if text_err is not None:
+        raise X.Partial("xl_main.flags", str(text_err))
+    X.write_if_changed(os.path.join(out, "Flags.v"), T.flags_v())
 
 
 def _is_name(n, id_=None):
@@ -191,6 +198,9 @@ class _Tr:
                     X.pin("formatting.%s.__init__.self.%s" % (cname, a), st)
                     stores.append((a, "<expr>"))
             self.classes.append((cname, nd.id, pd.value, stores))
+
+    def flags_text(self):
+        X, t, ws = self.X, self.fmt_tree, self.ws
         # _make_diff_tags: the WS_TEXT branch
         fs = {}
         for m in X.get_class(t, "XMLFormatter").body:
